@@ -19,10 +19,13 @@ MaxPos(type) == CASE type = "i64" -> <<9,2,2,3,3,7,2,0,3,6,8,5,4,7,7,5,8,0,7>>
                   [] type = "u32" -> <<4,2,9,4,9,6,7,2,9,5>>
                   [] type = "i8"  -> <<1,2,7>>          \* scaled-down types for exhaustive R1
                   [] type = "u8"  -> <<2,5,5>>
+                  [] type = "i4"  -> <<7>>              \* a narrow type read through the 8-bit reader (MC_IntsImpl)
+                  [] type = "u4"  -> <<1,5>>
 MaxNeg(type) == CASE type = "i64" -> <<9,2,2,3,3,7,2,0,3,6,8,5,4,7,7,5,8,0,8>>
                   [] type = "i32" -> <<2,1,4,7,4,8,3,6,4,8>>
                   [] type = "i8"  -> <<1,2,8>>
-Signed(type) == type \in {"i64", "i32", "i8"}
+                  [] type = "i4"  -> <<8>>
+Signed(type) == type \in {"i64", "i32", "i8", "i4"}
 
 IFail == [ok |-> FALSE, neg |-> FALSE, digits |-> <<>>, end |-> 0]
 
